@@ -31,6 +31,9 @@ class FakeFuture:
     def done(self):
         return self.state != PENDING
 
+    def cancelled(self):
+        return self.state == CANCELLED
+
     def set_result(self, result):
         if self.state != PENDING:
             raise asyncio.InvalidStateError("invalid state")
